@@ -22,6 +22,9 @@ struct Bitmap {
   }
 };
 
+// index of the op being executed (for crash recovery in batch mode)
+extern volatile int g_curOp;
+
 bool generate(const std::string& profile, uint64_t seed, Trace& out);
 // Executes the trace against the real code and the profile's reference model in lock-step.
 bool execute(const Trace& tr, Verdict& v, Coverage& cov, bool& nontrivial, Bitmap* bm);
